@@ -403,7 +403,37 @@ def raw_dict():
     return {"xs": [["1"], ["2", "3"]], "d": {"a": ["4"]}, "t": [1, ["red"]], "g": {"n": ["6"]}}
 
 rows = []
+prows = []
+def pstate():
+    return {"os.environ": dict(os.environ), "sys.argv": (id(sys.argv), list(sys.argv)), "os.cwd": os.getcwd(), "argparse.Namespace": id(__import__("argparse").Namespace)}
+def pdiff(site, a):
+    b = pstate()
+    ch = [k for k in a if a[k] != b[k]]
+    prows.append([site, "unchanged" if not ch else "CHANGED:" + ",".join(ch)])
+    if ch:
+        os.chdir(a["os.cwd"]); os.environ.clear(); os.environ.update(a["os.environ"])
 def probe(site, build, call, result_matters=True):
+    ps = pstate()
+    try:
+        try:
+            _probe(site, build, call, result_matters)
+        finally:
+            pdiff(site, ps)
+    except BaseException:
+        pass
+def failing(site, call):
+    """a call that raises midway: the process state must be as before"""
+    ps = pstate()
+    raised = False
+    try:
+        call(mk())
+    except BaseException:
+        raised = True
+    if raised:
+        pdiff(site, ps)
+    else:
+        prows.append([site, "unprobed:did-not-raise"])
+def _probe(site, build, call, result_matters=True):
     try:
         p = mk()
         arg = build(p)
@@ -467,14 +497,46 @@ try:
     rows.append(["add_argument.default", "kept" if act.default is v else "copied"])
 except BaseException as ex:
     rows.append(["add_argument.default", "unprobed:" + type(ex).__name__])
+ps = pstate()
+p = mk(); p.set_defaults({"xs": [["1"]]}); pdiff("set_defaults.value", ps)
+# failing calls, some of them inside change_to_path_dir (a config file in another directory)
+other = os.path.join(tmp, "elsewhere"); os.makedirs(other)
+with open(os.path.join(other, "bad.yaml"), "w") as f:
+    f.write("xs: [[1, zz]]\n")
+with open(os.path.join(other, "good.yaml"), "w") as f:
+    f.write("xs: [[1, 2]]\n")
+failing("parse_args.fails", lambda p: p.parse_args(["--xs=[[zz]]"]))
+failing("parse_args.cfgfile.fails", lambda p: p.parse_args(["--cfg", os.path.join(other, "bad.yaml")]))
+failing("parse_path.fails", lambda p: p.parse_path(os.path.join(other, "bad.yaml")))
+failing("parse_string.fails", lambda p: p.parse_string("xs: [[zz]]"))
+failing("parse_env.fails", lambda p: p.parse_env({"PRB_XS": "[[zz]]"}))
+failing("parse_object.fails", lambda p: p.parse_object({"xs": [["zz"]]}))
+failing("validate.fails", lambda p: p.validate(Namespace(xs=[["zz"]])))
+failing("dump.fails", lambda p: p.dump(Namespace(xs=[["zz"]])))
+failing("save.fails", lambda p: p.save(Namespace(xs=[["zz"]]), os.path.join(tmp, "f.yaml"), overwrite=True))
+failing("get_defaults.fails", lambda p: (setattr(p, "default_config_files", [os.path.join(other, "bad.yaml")]), p.get_defaults()))
+ps = pstate()
+try:
+    mk().parse_path(os.path.join(other, "good.yaml"))
+finally:
+    pdiff("parse_path.elsewhere", ps)
 import shutil; shutil.rmtree(tmp, ignore_errors=True)
 print("ENTRY " + json.dumps(rows))
+print("PROC " + json.dumps(prows))
 '''
 
 ENTRY_SITES = ["dump.cfg", "validate.cfg", "validate.branch", "merge_config.cfg_from", "merge_config.cfg_to", "strip_unknown.cfg",
                "instantiate_classes.cfg", "instantiate_classes.empty", "strip_meta.empty", "parse_object.cfg_obj.dict",
                "parse_object.cfg_obj.namespace", "parse_object.cfg_base", "parse_args.namespace", "parse_args.namespace.nodefaults", "parse_object.cfg_base.nodefaults", "parse_args.args", "parse_env.env",
                "save.cfg.single", "save.cfg.multi", "get_defaults.default", "auto_cli.args", "set_defaults.value", "add_argument.default"]
+
+
+PROC_ROWS = []
+PROC_SITES = ["dump.cfg", "validate.cfg", "validate.branch", "merge_config.cfg_from", "strip_unknown.cfg", "instantiate_classes.cfg",
+              "parse_object.cfg_obj.dict", "parse_args.args", "parse_args.namespace", "parse_env.env", "save.cfg.single", "save.cfg.multi",
+              "get_defaults.default", "set_defaults.value", "parse_path.elsewhere",
+              "parse_args.fails", "parse_args.cfgfile.fails", "parse_path.fails", "parse_string.fails", "parse_env.fails",
+              "parse_object.fails", "validate.fails", "dump.fails", "save.fails", "get_defaults.fails"]
 
 
 def probe_entry_points(problems):
@@ -494,6 +556,8 @@ def probe_entry_points(problems):
         for line in pr.stdout.split("\n"):
             if line.startswith("ENTRY "):
                 rows = [(k, str(v)) for k, v in json.loads(line[6:])]
+            if line.startswith("PROC "):
+                PROC_ROWS[:] = [(k, str(v)) for k, v in json.loads(line[5:])]
         if rows is None:
             problems.append("HeapSites: entry-point probe failed: %s" % pr.stdout[-400:])
     except Exception as ex:  # noqa: BLE001
@@ -516,6 +580,14 @@ def generate(problems):
     sites = copy_sites(problems)
     subs = probe_sub_defaults(problems)
     entry = probe_entry_points(problems)
+    got = dict(PROC_ROWS)
+    proc = []
+    for site in PROC_SITES:
+        v = got.get(site, "unprobed:missing")
+        if v.startswith("unprobed"):
+            problems.append("HeapSites: process state around %s cannot be probed (%s)" % (site, v))
+            v = "unprobed"
+        proc.append((site, v))
     strip_empty = dict(entry).get("strip_meta.empty") == "unchanged"
     b = lambda x: "true" if x else "false"  # noqa: E731
     body = "namespace Jap.Gen.HeapSites\n"
@@ -531,5 +603,7 @@ def generate(problems):
     body += "def stripMetaCopiesEmpty : Bool := %s\n" % b(strip_empty)
     body += "/-- (entry point . argument, what calling it on the live code did to the argument: unchanged | CHANGED | shared-result | kept | copied | unprobed) -/\n"
     body += "def entryProbes : List (String × String) := [%s]\n" % ", ".join("(%s, %s)" % (lean_str(k), lean_str(v)) for k, v in entry)
+    body += "/-- (entry point, os.environ / sys.argv (object and content) / cwd / argparse.Namespace after a real call, successful or raising midway: unchanged | CHANGED:<which> | unprobed) -/\n"
+    body += "def processProbes : List (String × String) := [%s]\n" % ", ".join("(%s, %s)" % (lean_str(k), lean_str(v)) for k, v in proc)
     body += "end Jap.Gen.HeapSites\n"
     write_if_changed("HeapSites.lean", body)
